@@ -21,7 +21,8 @@ package proxy
 //@   ensures [C01 C04] clears: err != nil ==> rw.$sessionCookie == 2
 //@   ensures [C03] user_header: err == nil ==> hdrIs(req.Header, "X-Forwarded-User", S.User)
 //@   ensures [C03] email_header: err == nil ==> hdrIs(req.Header, "X-Forwarded-Email", S.Email)
-//@   ensures [C03] groups_header: err == nil ==> (("X-Forwarded-Groups" in req.Header) && len(req.Header["X-Forwarded-Groups"]) == 1)
+//@   ensures [C03] groups_header: err == nil ==> hdrIs(req.Header, "X-Forwarded-Groups", join(S.Groups, ","))
+//@   ensures [C03] token_absent_when_disabled: err == nil && !(p.upstreamConfig.PassAccessToken && S.AccessToken != "") ==> hdrAbsent(req.Header, "X-Forwarded-Access-Token")
 //@   ensures [C03] token_header: err == nil && p.upstreamConfig.PassAccessToken && S.AccessToken != "" ==> hdrIs(req.Header, "X-Forwarded-Access-Token", S.AccessToken)
 //@   loop 1
 //@     invariant forall j :: 0 <= j && j < $i ==> typeis(p.Validators[j], "validators.EmailGroupValidator") || vpass(p.Validators[j].tag, p.Validators[j].pay, S.Email)
@@ -38,6 +39,7 @@ package proxy
 //@   let authn = called(@Authenticate#1) && @Authenticate#1 == nil && arg(@Authenticate#1, 1) == rw && arg(@Authenticate#1, 2) == req
 //@   sink [C01] mediated: ServeHTTP requires $arg1 == req && (old(skipAuth(p.upstreamConfig, req)) || authn)
 //@   sink [C03] identity_kept: ServeHTTP requires authn ==> req.Header["X-Forwarded-User"] == at(@Authenticate#1, req.Header["X-Forwarded-User"]) && req.Header["X-Forwarded-Email"] == at(@Authenticate#1, req.Header["X-Forwarded-Email"]) && req.Header["X-Forwarded-Groups"] == at(@Authenticate#1, req.Header["X-Forwarded-Groups"]) && req.Header["X-Forwarded-Access-Token"] == at(@Authenticate#1, req.Header["X-Forwarded-Access-Token"])
+//@   sink [C03] skip_auth_carries_no_identity: ServeHTTP requires !authn ==> hdrAbsent(req.Header, "X-Forwarded-User") && hdrAbsent(req.Header, "X-Forwarded-Email") && hdrAbsent(req.Header, "X-Forwarded-Groups") && hdrAbsent(req.Header, "X-Forwarded-Access-Token")
 //@   ensures [C01] no_upstream_unless_mediated: called(@ServeHTTP#1) ==> old(skipAuth(p.upstreamConfig, req)) || authn
 
 //@ func (p *OAuthProxy) AuthenticateOnly(rw http.ResponseWriter, req *http.Request)
